@@ -1,3 +1,4 @@
+import PncModel.Generated.IoapiStd
 import PncProofs.IoapiLemmas
 /-
 C10 — IOAPI metadata stays coherent under every operation.
@@ -883,5 +884,9 @@ theorem points_unlists (s s' : St) (h : opPoints s = some s') (hb : ∀ v ∈ s.
 /-- non-vacuity: the example file -/
 example : ∃ s', opPoints exSt = some s' ∧ s'.varlist = [] ∧ s'.nvars = 0 ∧ s'.varDim = 1 := by
   refine ⟨_, rfl, ?_, ?_, ?_⟩ <;> decide +kernel
+
+/-- **tie to the source** (regenerated from `ioapi_base.getVarlist` on every run): the dimension tuples a listed variable
+must have and the longest listable name are the ones the model's `isStd` / `listable` use -/
+theorem std_dims_match_source : Generated.ioapiStdDims = [stdG, stdB] ∧ Generated.ioapiNameMax = some 16 := by decide
 
 end Props.C10
